@@ -276,7 +276,7 @@ te_copy = dict(
 __CPROVER_requires(__CPROVER_is_fresh(self, sizeof(*self)) && __CPROVER_is_fresh(other, sizeof(*other)) && __CPROVER_is_fresh(self->formatted_msg, sizeof(FBuf)) && __CPROVER_is_fresh(other->formatted_msg, sizeof(FBuf)))
 __CPROVER_requires((self->named_args == NULL || __CPROVER_is_fresh(self->named_args, sizeof(NAvec))) && other->named_args == NULL && other->formatted_msg->g_size == 0 && self->formatted_msg->g_content != 0 && g_na_copies == 0)
 __CPROVER_assigns(__CPROVER_object_whole(other), __CPROVER_object_whole(other->formatted_msg), g_na_copies, __CPROVER_object_whole(&g_new_na))
-__CPROVER_ensures(other->timestamp == self->timestamp && other->macro_metadata == self->macro_metadata && other->logger_base == self->logger_base && other->dynamic_log_level == self->dynamic_log_level && other->flush_flag == self->flush_flag) /*@ C18 "a stored backtrace statement keeps its timestamp, source metadata, logger and level" */
+__CPROVER_ensures(other->timestamp == self->timestamp && other->macro_metadata == self->macro_metadata && other->logger_base == self->logger_base && other->dynamic_log_level == self->dynamic_log_level) /*@ C18 "a stored backtrace statement keeps its timestamp, source metadata, logger and level (the flush flag is not demanded: a backtrace statement has none)" */
 __CPROVER_ensures(other->formatted_msg->g_content == self->formatted_msg->g_content && other->formatted_msg->g_size == self->formatted_msg->g_size && other->formatted_msg != self->formatted_msg) /*@ C18 "it keeps its text, in a buffer of its own (the original slot is reused for the next statement)" */
 __CPROVER_ensures(self->named_args == NULL ? other->named_args == NULL : (other->named_args != NULL && other->named_args != self->named_args && other->named_args->g_content == self->named_args->g_content && g_na_copies == 1)) /*@ C18,C19 "it keeps its key / value pairs, as a copy of its own" */
 ''')],
